@@ -13,6 +13,9 @@ os.environ.setdefault("TQDM_DISABLE", "1")
 import argparse, importlib, json, os, sys, time, traceback
 
 sys.path.insert(0, os.path.dirname(os.path.dirname(os.path.abspath(__file__))))
+if os.environ.get("EMD_REPO"):
+    # check a copy of the repository instead of /repo (used by background sweeps); default: /repo via the editable install
+    sys.path.insert(0, os.path.join(os.environ["EMD_REPO"], "src"))
 from harness import common
 
 
